@@ -7,6 +7,7 @@ package c08
 import (
 	"context"
 	"fmt"
+	"net/http"
 	"path/filepath"
 	"sort"
 	"strings"
@@ -152,6 +153,14 @@ func run(t *testing.T, tape *simrt.Tape) *hx.Outcome {
 			dm.FuseFailDen = []int{0, 0, 6}[s.Tape.Draw("cfg.real", 3)]
 			ca := &checkAudit{s: s, dm: dm, valid: time.Duration(fcfg.BlobConfig.ValidInterval) * time.Second}
 			fs.Inner = ca
+			// (a request accepted before an outage may be answered during it: the filesystem then has talked to
+			// the registry successfully, and a connectivity check is not due for another interval)
+			reg.PostHook = func(r *simreg.Request, req *http.Request, resp *http.Response) *http.Response {
+				if resp != nil && resp.StatusCode < 400 {
+					ca.lastAnswer = s.Now()
+				}
+				return resp
+			}
 			if rcfg.FaultDen > 0 {
 				// connectivity loss and recovery while the clients work; sometimes the source lookup has
 				// nothing to offer during the outage either
@@ -443,13 +452,16 @@ func run(t *testing.T, tape *simrt.Tape) *hx.Outcome {
 
 // checkAudit sits between the recorder and the real filesystem: a Check of a layer that is not fully
 // cached must not report success when the registry has been unreachable, without interruption, for
-// longer than the connectivity-check interval (no earlier success can still be valid) and still is.
+// longer than the connectivity-check interval and still is, and has not answered any request successfully
+// for that long either (no earlier success can still be valid).
 type checkAudit struct {
 	s      *simrt.Sim
 	dm     *common.Daemon
 	valid  time.Duration
 	downAt time.Duration
 	epoch  int
+	// lastAnswer is when the registry last answered any request successfully
+	lastAnswer time.Duration
 }
 
 func (c *checkAudit) Mount(ctx context.Context, mp string, labels map[string]string) error {
@@ -460,7 +472,7 @@ func (c *checkAudit) Check(ctx context.Context, mp string, labels map[string]str
 	e0, down0, since := c.epoch, c.dm.Reg.Down, c.s.Now()-c.downAt
 	f, sz, ok := c.dm.Fetched(mp)
 	err := c.dm.FS.Check(ctx, mp, labels)
-	if err == nil && ok && f < sz && down0 && c.dm.Reg.Down && e0 == c.epoch && since > c.valid+2*time.Second {
+	if quiet := c.s.Now() - c.lastAnswer; err == nil && ok && f < sz && down0 && c.dm.Reg.Down && e0 == c.epoch && since > c.valid+2*time.Second && quiet > c.valid+2*time.Second {
 		c.s.Fail("check-ok-while-unreachable", "Check of the remote layer on %s reported success although the registry had been unreachable for %v when it began (connectivity-check interval %v), still was when it returned, and the layer is not fully cached (%d of %d bytes; source lookup empty: %v): Mounts would be handed out for a chain whose remote layer cannot be reached", common.RelSnap(mp), since, c.valid, f, sz, c.dm.NoSources)
 	}
 	return err
